@@ -11,7 +11,7 @@ EXTENDS TrigCore, TLC, Json, IOUtils
 CONSTANTS MaxOps, WithScriptSet
 Forms == JsonDeserialize(IOEnv.FORMS)          \* spec/trig_forms.json
 Val  == {"0", "1"}
-AVal == {"p", "q"}
+AVal == {"p", "q", "-"}          \* "-": the entity exists but has no attribute x
 St   == [v : Val, x : AVal] \cup {Absent}
 
 VARIABLES fi, hass, bus, notifyLast, q, runs, hist, snap, consAt, nops
